@@ -45,7 +45,11 @@ META = {
         "R4: the explicit-name registry is keyed by docutils-normalised names (every writer passes the name through "
         "nodes.fully_normalize_name) so the reader has to probe it with a normalised key. "
         "R5: the explicit registry holds exactly the explicit names: the reader filters on the nametypes flag, the MyST target / "
-        "attribute id / directive name writers register with note_explicit_target, the heading-title name with note_implicit_target."
+        "attribute id / directive name writers register with note_explicit_target, the heading-title name with note_implicit_target. "
+        "R6: for each heading node render_heading creates (section whose title is a nodes.title child; rubric that is its own title) the "
+        "resolver's title extraction has a case on the same subject (the node itself / a child of that class). "
+        "R7: the key under which a heading enters the slug registry was tested absent from the registry after its last assignment on "
+        "every path (compute_unique_slug), so no heading overwrites another heading's anchor."
     ),
     "not_decided": (
         "which node a given name resolves to at run time (contents of document.nametypes/nameids/ids and myst_slugs for a concrete "
@@ -132,6 +136,15 @@ def _direct(fi: FunctionInfo, expr: ast.AST, pred) -> bool:
                 if any(pred(s) for s in ast.walk(val)):
                     return True
     return False
+
+
+def _iter_source(fi: FunctionInfo, it: ast.expr) -> ast.expr:
+    """The iterated expression, looking through one local name (``names = [...]; for n in names``)."""
+    if isinstance(it, ast.Name):
+        b = [v for v, i, st in _bindings(fi, it.id) if i is None and not isinstance(st, (ast.For, ast.comprehension))]
+        if len(b) == 1:
+            return b[0]
+    return it
 
 
 def _mentions_name(expr: ast.AST, name: str) -> bool:
@@ -269,8 +282,46 @@ EXTERNAL_CLASS_REASON = "a link carrying the class 'external' is forced to a pla
 AUTO_REASON = "autolink/linkify tokens always carry an absolute URI (markdown-it autolink rule), never a bare '#fragment'"
 
 
-def _preemption(e: ast.expr, pol: bool) -> str | None:
-    """Reason if the fact (e, pol) is one of the tabled pre-emptions."""
+def _container_kind(fi: FunctionInfo, e: ast.AST, depth: int = 0) -> str:
+    """What ``X in <e>`` tests: 'words' (membership in a sequence of words), 'string' (substring), 'unknown'."""
+    if isinstance(e, (ast.List, ast.Tuple, ast.Set, ast.ListComp, ast.SetComp, ast.GeneratorExp)):
+        return "words"
+    if isinstance(e, (ast.JoinedStr,)) or (isinstance(e, ast.Constant) and isinstance(e.value, str)):
+        return "string"
+    if isinstance(e, ast.Call):
+        d = dotted(e.func) or ""
+        if isinstance(e.func, ast.Attribute) and e.func.attr in ("split", "rsplit", "splitlines"):
+            return "words"
+        if d in ("set", "list", "tuple", "frozenset", "sorted") and len(e.args) == 1:
+            inner = _container_kind(fi, e.args[0], depth + 1)
+            return "words" if inner == "words" else "unknown"
+        if d == "str":
+            return "string"
+        if d in ("cast", "t.cast", "typing.cast") and len(e.args) == 2:
+            return _container_kind(fi, e.args[1], depth + 1)
+        if isinstance(e.func, ast.Attribute) and e.func.attr in ("lower", "upper", "casefold", "strip", "lstrip", "rstrip", "replace", "join", "format"):
+            return "string"
+        if isinstance(e.func, ast.Attribute) and e.func.attr in ("get", "attrGet") and e.args and isinstance(e.args[0], ast.Constant) and e.args[0].value == "class":
+            return "string"  # token attribute values are scalars (str | int | float)
+        return "unknown"
+    if isinstance(e, ast.Subscript) and isinstance(e.slice, ast.Constant) and e.slice.value == "class":
+        return "string"
+    if isinstance(e, ast.BoolOp) and isinstance(e.op, ast.Or):
+        kinds = {_container_kind(fi, v, depth + 1) for v in e.values}
+        return kinds.pop() if len(kinds) == 1 else "unknown"
+    if isinstance(e, ast.BinOp) and isinstance(e.op, ast.Add):
+        kinds = {_container_kind(fi, e.left, depth + 1), _container_kind(fi, e.right, depth + 1)}
+        return kinds.pop() if len(kinds) == 1 else "unknown"
+    if isinstance(e, ast.Name) and depth < 4:
+        b = [v for v, i, st in _bindings(fi, e.id) if i is None and not isinstance(st, (ast.For, ast.comprehension))]
+        if len(b) == 1:
+            return _container_kind(fi, b[0], depth + 1)
+    return "unknown"
+
+
+def _preemption(fi: FunctionInfo, e: ast.expr, pol: bool) -> tuple[str, str] | None:
+    """('ok', reason) if the fact (e, pol) is one of the tabled pre-emptions; ('substring' | 'unknown', text) if it
+    looks like the 'external' class pre-emption but is not a *word* membership test."""
     if not pol:
         return None
     # any boolean combination of md_config flags from the table
@@ -279,14 +330,23 @@ def _preemption(e: ast.expr, pol: bool) -> str | None:
     if leaves and all(a.attr in CONFIG_PREEMPT for a in leaves):
         others = [n for n in ast.walk(e) if isinstance(n, (ast.Call, ast.Compare, ast.Subscript))]
         if not others and (isinstance(e, ast.Attribute) or (isinstance(e, ast.BoolOp) and isinstance(e.op, ast.Or))):
-            return "; ".join(sorted({CONFIG_PREEMPT[a.attr] for a in leaves}))
+            return "ok", "; ".join(sorted({CONFIG_PREEMPT[a.attr] for a in leaves}))
     if isinstance(e, ast.Compare) and len(e.ops) == 1 and isinstance(e.ops[0], ast.In) and isinstance(e.left, ast.Constant) and e.left.value == "external":
-        if any(isinstance(n, ast.Constant) and n.value == "class" for n in ast.walk(e.comparators[0])):
-            return EXTERNAL_CLASS_REASON
+        cont = e.comparators[0]
+        if any(isinstance(n, ast.Constant) and n.value == "class" for x in _closure(fi, cont) for n in ast.walk(x)):
+            kind = _container_kind(fi, cont)
+            if kind == "words":
+                return "ok", EXTERNAL_CLASS_REASON
+            if kind == "string":
+                return "substring", (
+                    f"`{short(e, 60)}` is a substring test on the class string, not a membership test on the list of classes: a '#' link whose class merely "
+                    "contains 'external' (external-icon, non-external) bypasses render_link_anchor, is never marked id_link, is never resolved and never warns"
+                )
+            return "unknown", f"`{short(e, 60)}`: cannot tell whether the right-hand side is a list of class words or a string"
     if isinstance(e, ast.Compare) and len(e.ops) == 1 and isinstance(e.ops[0], ast.Eq):
         sides = [e.left, e.comparators[0]]
         if any(isinstance(s, ast.Constant) and s.value == "auto" for s in sides) and any(isinstance(s, ast.Attribute) and s.attr == "info" for s in sides):
-            return AUTO_REASON
+            return "ok", AUTO_REASON
     return None
 
 
@@ -352,16 +412,23 @@ def r1_dispatch(corpus: Corpus, rep: Report, tier: str):
                         if _scheme_regex_excludes_hash(fi, e.left):
                             why = f"guarded by `{short(e, 40)}`: the scheme regex cannot match a leading '#', so the scheme is None for '#' hrefs"
                             break
+            bad = None
             if why is None:
                 for e, p in guards:
-                    r = _preemption(e, p)
-                    if r:
-                        assumed = r
+                    r = _preemption(fi, e, p)
+                    if r and r[0] == "ok":
+                        assumed = r[1]
                         break
+                    if r and bad is None:
+                        bad = r
             if why:
                 rep.ok(R1, k, site, why)
             elif assumed:
                 rep.assumed(R1, k, site, assumed)
+            elif bad and bad[0] == "substring":
+                rep.violation(R1, k, site, bad[1])
+            elif bad:
+                rep.error(R1, f"{site}: {bad[1]}")
             else:
                 rep.violation(R1, k, site, f"an href that starts with '#' can reach `{short(call, 50)}`: the link is not marked id_link, ResolveAnchorIds never sees it and it resolves as something else")
         if anchors == 0:
@@ -488,7 +555,7 @@ class Resolver:
             raise Unsupported("the slug registry (document.myst_slugs) is not read into a local")
         self.explicit = None
         for n in fi.local_nodes():
-            if isinstance(n, ast.For) and n is not self.loop and any(isinstance(c, ast.Attribute) and c.attr == "nametypes" for c in ast.walk(n.iter)):
+            if isinstance(n, ast.For) and n is not self.loop and any(isinstance(c, ast.Attribute) and c.attr == "nametypes" for c in ast.walk(_iter_source(fi, n.iter))):
                 for s in walk_local(n):
                     if isinstance(s, ast.Assign) and isinstance(s.targets[0], ast.Subscript) and isinstance(s.targets[0].value, ast.Name):
                         self.explicit, self.explicit_loop, self.explicit_store = s.targets[0].value.id, n, s
@@ -501,8 +568,11 @@ class Resolver:
                 ok_use = (isinstance(p, ast.Compare) and len(p.ops) == 1 and isinstance(p.ops[0], (ast.In, ast.NotIn)) and p.comparators[0] is n) or (
                     isinstance(p, ast.Subscript) and p.value is n and isinstance(p.ctx, ast.Load)
                 )
+                if isinstance(p, ast.Attribute) and p.attr == "get" and p.value is n:
+                    c = getattr(p, "_parent", None)
+                    ok_use = isinstance(c, ast.Call) and c.func is p and not c.keywords and (len(c.args) == 1 or (len(c.args) == 2 and isinstance(c.args[1], ast.Constant) and c.args[1].value is None))
                 if not ok_use:
-                    raise Unsupported(f"registry `{n.id}` is used as `{short(p, 50)}` in the reference loop (only `in` tests and subscripts are modelled)")
+                    raise Unsupported(f"registry `{n.id}` is used as `{short(p, 50)}` in the reference loop (only `in` tests, subscripts and .get(key) are modelled)")
         # outcomes
         self.refid_stores = [
             n
@@ -518,12 +588,16 @@ class Resolver:
                 elif n.func.attr == "replace_self" and isinstance(n.func.value, ast.Name) and n.func.value.id == self.var and n.args:
                     self.replaces.append((n, n.args[0]))
         self.warnings = [n for n in self.body if isinstance(n, ast.Call) and self.m.resolve(dotted(n.func) or "").endswith("warnings_.create_warning")]
-        # a helper that receives the reference node may do any of the above: not followed -> fail closed
+        # a helper that receives the reference node is followed one level (inspect / add children only), else fail closed
+        self.helper_fills: dict[int, bool] = {}
+        self.helpers: list = []
         for n in self.body:
             if isinstance(n, ast.Call) and n not in self.warnings and not any(n is c for c, _ in self.replaces):
                 passed = [a for a in list(n.args) + [k.value for k in n.keywords] if isinstance(a, ast.Name) and a.id == self.var]
                 if passed and dotted(n.func) not in ("isinstance", "len", "bool", "id", "repr", "str"):
-                    raise Unsupported(f"the reference node is passed to `{short(n, 50)}`, which is not followed")
+                    if isinstance(n.func, ast.Attribute) and isinstance(n.func.value, ast.Name) and n.func.value.id != "self":
+                        raise Unsupported(f"the reference node is passed to `{short(n, 50)}`, which is not followed")
+                    self._follow_helper(n)
         # any other reporter-style emission inside the loop is outside the model
         for n in self.body:
             if isinstance(n, ast.Call) and isinstance(n.func, ast.Attribute) and n.func.attr in ("warning", "error", "severe", "log_warning") and n not in self.warnings:
@@ -568,10 +642,27 @@ class Resolver:
     def warn_weight(self, n) -> int:
         return sum(1 for c in self.own_calls(n) if c in self.warnings)
 
+    def _get_call(self, e: ast.AST, depth: int = 0) -> ast.Call | None:
+        """``R.get(K)`` behind ``e`` (directly, or through a local bound once to it)."""
+        if isinstance(e, ast.Call) and isinstance(e.func, ast.Attribute) and e.func.attr == "get" and isinstance(e.func.value, ast.Name) and e.func.value.id in (self.explicit, self.slugs) and e.args:
+            return e
+        if isinstance(e, ast.Name) and depth < 2:
+            b = [v for v, i, st in _bindings(self.fi, e.id) if i is None]
+            if len(b) == 1:
+                return self._get_call(b[0], depth + 1)
+        return None
+
     def lookup_facts(self, stmt) -> dict[str, set[bool]]:
         """{'explicit'|'slugs': polarities} of registry membership facts that hold at ``stmt``."""
         out: dict[str, set[bool]] = {"explicit": set(), "slugs": set()}
         for e, p in self.cfg.guards(stmt):
+            # hit = R.get(K); `if hit` / `if hit is not None` (registry values are non-empty tuples)
+            g, gp = self._get_call(e), p
+            if g is None and isinstance(e, ast.Compare) and len(e.ops) == 1 and isinstance(e.comparators[0], ast.Constant) and e.comparators[0].value is None and isinstance(e.ops[0], (ast.Is, ast.IsNot)):
+                g, gp = self._get_call(e.left), (p if isinstance(e.ops[0], ast.IsNot) else not p)
+            if g is not None and _derives(self.fi, g.args[0], lambda s: isinstance(s, ast.Name) and s.id == self.target):
+                out["explicit" if g.func.value.id == self.explicit else "slugs"].add(gp)
+                continue
             if isinstance(e, ast.Compare) and len(e.ops) == 1 and isinstance(e.ops[0], (ast.In, ast.NotIn)) and isinstance(e.comparators[0], ast.Name):
                 reg = e.comparators[0].id
                 pol = p if isinstance(e.ops[0], ast.In) else not p
@@ -584,6 +675,8 @@ class Resolver:
         return out
 
     def lookup_facts_of_test(self, test: ast.expr) -> bool:
+        if any(self._get_call(c) is not None for c in ast.walk(test) if isinstance(c, (ast.Name, ast.Call))):
+            return True
         return any(isinstance(c, ast.Compare) and isinstance(c.comparators[0], ast.Name) and c.comparators[0].id in (self.explicit, self.slugs) for c in ast.walk(test))
 
     def outcome_stmts(self) -> list[tuple[str, ast.stmt, ast.AST]]:
@@ -591,45 +684,90 @@ class Resolver:
         out += [("replace", self.cfg.stmt_of(c), c) for c, _ in self.replaces]
         return out
 
-    def is_add_child(self, n) -> bool:
-        if isinstance(n, ast.AugAssign) and isinstance(n.op, ast.Add) and isinstance(n.target, ast.Name) and n.target.id == self.var:
+    def is_add_child(self, n, var: str | None = None) -> bool:
+        var = var or self.var
+        if isinstance(n, ast.AugAssign) and isinstance(n.op, ast.Add) and isinstance(n.target, ast.Name) and n.target.id == var:
             return True
         if isinstance(n, ast.Expr) and isinstance(n.value, ast.Call) and isinstance(n.value.func, ast.Attribute):
             f = n.value.func
-            if f.attr in ("append", "extend", "insert") and isinstance(f.value, ast.Name) and f.value.id == self.var:
+            if f.attr in ("append", "extend", "insert") and isinstance(f.value, ast.Name) and f.value.id == var:
                 return True
+        if isinstance(n, ast.Expr) and isinstance(n.value, ast.Call) and self.helper_fills.get(id(n.value)):
+            return True  # a followed helper that adds a child (or finds children) on every path
         return False
 
-    def _is_children(self, e: ast.AST) -> bool:
-        if isinstance(e, ast.Attribute) and e.attr == "children" and isinstance(e.value, ast.Name) and e.value.id == self.var:
+    def _is_children(self, e: ast.AST, var: str | None = None) -> bool:
+        var = var or self.var
+        if isinstance(e, ast.Attribute) and e.attr == "children" and isinstance(e.value, ast.Name) and e.value.id == var:
             return True
         if isinstance(e, ast.Call) and dotted(e.func) in ("len", "bool") and len(e.args) == 1:
             a = e.args[0]
-            if dotted(e.func) == "len" and isinstance(a, ast.Name) and a.id == self.var:
+            if dotted(e.func) == "len" and isinstance(a, ast.Name) and a.id == var:
                 return True  # len(Element) == number of children
-            return self._is_children(a)
+            return self._is_children(a, var)
         return False
 
-    def children_facts(self, test: ast.expr, pol: bool, depth: int = 0) -> list[bool]:
+    def children_facts(self, test: ast.expr, pol: bool, depth: int = 0, var: str | None = None, fi: FunctionInfo | None = None) -> list[bool]:
         """Polarities with which ``refnode.children`` is known (non-)empty on this edge."""
         out = []
+        fi = fi or self.fi
         for e, p in facts(test, pol):
-            if self._is_children(e):
+            if self._is_children(e, var):
                 out.append(p)
-            elif isinstance(e, ast.Compare) and len(e.ops) == 1 and self._is_children(e.left) and isinstance(e.comparators[0], ast.Constant) and e.comparators[0].value == 0:
+            elif isinstance(e, ast.Compare) and len(e.ops) == 1 and self._is_children(e.left, var) and isinstance(e.comparators[0], ast.Constant) and e.comparators[0].value == 0:
                 op = e.ops[0]
                 if isinstance(op, (ast.Gt, ast.NotEq)):
                     out.append(p)
                 elif isinstance(op, ast.Eq):
                     out.append(not p)
             elif isinstance(e, ast.Name) and depth < 3:
-                b = _bindings(self.fi, e.id)
+                b = _bindings(fi, e.id)
                 if len(b) == 1 and b[0][1] is None:
-                    out.extend(self.children_facts(b[0][0], p, depth + 1))
+                    out.extend(self.children_facts(b[0][0], p, depth + 1, var, fi))
         return out
 
-    def is_nonempty_edge(self, n) -> bool:
-        return isinstance(n, tuple) and n[0] in ("T", "F") and isinstance(n[1], ast.If) and True in self.children_facts(n[1].test, n[0] == "T")
+    def is_nonempty_edge(self, n, var: str | None = None, fi: FunctionInfo | None = None) -> bool:
+        return isinstance(n, tuple) and n[0] in ("T", "F") and isinstance(n[1], ast.If) and True in self.children_facts(n[1].test, n[0] == "T", 0, var, fi)
+
+    # -- helpers that receive the reference node (followed one level) -----------------
+    def _follow_helper(self, call: ast.Call) -> None:
+        """``self.h(refnode, ...)`` / ``h(refnode, ...)``: accepted if ``h`` is a function of this module that only
+        inspects the node and adds children; records whether it fills an empty node on every path."""
+        f = call.func
+        h = None
+        if isinstance(f, ast.Attribute) and isinstance(f.value, ast.Name) and f.value.id == "self" and self.fi.cls is not None:
+            h = self.corpus.lookup_method(self.fi.cls, f.attr)
+            shift = 0 if (h is not None and "staticmethod" in h.decorators()) else 1
+        elif isinstance(f, ast.Name):
+            h = self.m.functions.get(f.id) or self.corpus.find_function(self.m.resolve(f.id))
+            shift = 0
+        if h is None or h.is_lambda:
+            raise Unsupported(f"the reference node is passed to `{short(call, 50)}`, which cannot be followed")
+        pos = [i for i, a in enumerate(call.args) if isinstance(a, ast.Name) and a.id == self.var]
+        kws = [k.arg for k in call.keywords if isinstance(k.value, ast.Name) and k.value.id == self.var]
+        if len(pos) + len(kws) != 1 or any(isinstance(a, ast.Starred) for a in call.args):
+            raise Unsupported(f"`{short(call, 50)}`: argument binding of the reference node not understood")
+        pv = kws[0] if kws else (h.params[pos[0] + shift] if pos[0] + shift < len(h.params) else None)
+        if pv is None or pv not in h.params:
+            raise Unsupported(f"`{short(call, 50)}`: argument binding of the reference node not understood")
+        for n in h.local_nodes():
+            bad = None
+            if isinstance(n, ast.Subscript) and isinstance(n.value, ast.Name) and n.value.id == pv and isinstance(n.ctx, (ast.Store, ast.Del)):
+                bad = f"writes/deletes an attribute of the node (`{short(n, 30)}`)"
+            elif isinstance(n, ast.Call):
+                d = self_d = dotted(n.func) or ""
+                if any(isinstance(a, ast.Name) and a.id == pv for a in list(n.args) + [k.value for k in n.keywords]) and d not in ("isinstance", "len", "bool", "id", "repr", "str"):
+                    bad = f"passes the node on (`{short(n, 40)}`)"
+                elif h.module.resolve(d).endswith("create_warning") or (isinstance(n.func, ast.Attribute) and n.func.attr in ("warning", "error", "severe", "replace", "replace_self", "remove")):
+                    bad = f"has an effect outside the model (`{short(n, 40)}`)"
+            elif isinstance(n, (ast.Assign, ast.AugAssign)) and any(isinstance(t, ast.Name) and t.id == pv for t in (n.targets if isinstance(n, ast.Assign) else [])):
+                bad = "rebinds the node parameter"
+            if bad:
+                raise Unsupported(f"helper {h.qualname} {bad}: not modelled")
+        hc = get_cfg(h)
+        fills = not hc.paths_avoiding("ENTRY", "EXIT", lambda n: self.is_add_child(n, pv) or self.is_nonempty_edge(n, pv, h))
+        self.helper_fills[id(call)] = fills
+        self.helpers.append((call, h, fills))
 
 
 def _resolver(corpus: Corpus) -> Resolver:
@@ -837,7 +975,12 @@ def _registry_positions_of(rs: Resolver, expr: ast.AST) -> set[tuple[str, int]]:
     """(registry, tuple position) pairs from which ``expr`` is read (one level of unpacking)."""
     out: set[tuple[str, int]] = set()
 
-    def reg_of(e: ast.AST) -> str | None:
+    def reg_of(e: ast.AST, depth: int = 0) -> str | None:
+        if isinstance(e, ast.Name) and depth < 2:
+            b = [v for v, i, st in _bindings(rs.fi, e.id) if i is None]
+            if len(b) == 1:
+                return reg_of(b[0], depth + 1)
+            return None
         if isinstance(e, ast.Subscript) and isinstance(e.value, ast.Name):
             if e.value.id == rs.explicit:
                 return "explicit"
@@ -1256,27 +1399,89 @@ def r5_explicit_only(corpus: Corpus, rep: Report, tier: str):
     rep.rule(R5, "the explicit registry holds exactly the explicit names: reader filters on the nametypes flag; target/attribute-id/name-option writers register explicit, the heading title registers implicit")
     rs = _resolver(corpus)
     fi, m, cfg = rs.fi, rs.m, rs.cfg
-    # reader: the store into the registry is guarded by the flag that nametypes.items() yields
+    # reader: the store into the registry happens only for names whose nametypes value (the explicit flag) is true
     k = f"{fi.fq}|only names flagged explicit enter the registry"
     lp = rs.explicit_loop
-    flag = None
-    if isinstance(lp.target, (ast.Tuple, ast.List)) and len(lp.target.elts) == 2 and isinstance(lp.target.elts[1], ast.Name) and isinstance(lp.iter, ast.Call) and isinstance(lp.iter.func, ast.Attribute) and lp.iter.func.attr == "items":
-        flag = lp.target.elts[1].id
-    if flag is None:
-        # for name in nametypes: if nametypes[name] ...
-        guards = cfg.guards(cfg.stmt_of(rs.explicit_store))
-        if any(p and any(isinstance(s, ast.Attribute) and s.attr == "nametypes" for s in ast.walk(e)) for e, p in guards):
-            rep.ok(R5, k, m.site(rs.explicit_store))
-        else:
-            rep.error(R5, f"loop `{short(lp, 60)}` over nametypes not understood")
+    store_st = cfg.stmt_of(rs.explicit_store)
+    src = _iter_source(fi, lp.iter)
+
+    def items_flag(target: ast.expr, it: ast.expr) -> str | None:
+        """name bound to the flag by ``for <name>, <flag> in <...>.nametypes.items()``"""
+        if isinstance(target, (ast.Tuple, ast.List)) and len(target.elts) == 2 and isinstance(target.elts[1], ast.Name):
+            if isinstance(it, ast.Call) and isinstance(it.func, ast.Attribute) and it.func.attr == "items" and isinstance(it.func.value, ast.Attribute) and it.func.value.attr == "nametypes":
+                return target.elts[1].id
+        return None
+
+    def is_flag(e: ast.AST, names: set[str]) -> bool:
+        if isinstance(e, ast.Name) and e.id in names:
+            return True
+        if isinstance(e, ast.Subscript) and isinstance(e.value, ast.Attribute) and e.value.attr == "nametypes":
+            return True
+        if isinstance(e, ast.Call) and isinstance(e.func, ast.Attribute) and e.func.attr == "get" and isinstance(e.func.value, ast.Attribute) and e.func.value.attr == "nametypes":
+            return True
+        return False
+
+    def flag_value(e: ast.expr, p: bool, names: set[str]) -> bool | None:
+        """what the fact (e, p) says about the explicit flag: True / False (not explicit) / None (nothing decidable)"""
+        if is_flag(e, names):
+            return p
+        if isinstance(e, ast.Compare) and len(e.ops) == 1 and is_flag(e.left, names) and isinstance(e.comparators[0], ast.Constant) and isinstance(e.comparators[0].value, bool):
+            c, op = e.comparators[0].value, e.ops[0]
+            holds = p if isinstance(op, (ast.Is, ast.Eq)) else (not p) if isinstance(op, (ast.IsNot, ast.NotEq)) else None
+            if holds is None:
+                return None
+            if c:  # compared with True
+                return True if holds else False
+            return False if holds else None  # `flag is False` fails -> the flag may still be None (implicit): no evidence
+        return None
+
+    def truthy(e: ast.expr, p: bool, names: set[str]) -> bool:
+        return flag_value(e, p, names) is True
+
+    def mentions_flag(e: ast.AST, names: set[str]) -> bool:
+        return any(is_flag(x, names) for x in ast.walk(e))
+
+    names: set[str] = set()
+    f1 = items_flag(lp.target, lp.iter)
+    if f1:
+        names.add(f1)
+    evidence = None
+    mentioned = False
+    inverted = None
+    for e, p in cfg.guards(store_st):
+        if truthy(e, p, names):
+            evidence = f"guarded by `{('' if p else 'not ') + short(e, 40)}`"
+        elif flag_value(e, p, names) is False:
+            inverted = ("" if p else "not ") + short(e, 40)
+        elif mentions_flag(e, names):
+            mentioned = True
+    if evidence is None and isinstance(src, (ast.ListComp, ast.SetComp, ast.GeneratorExp, ast.DictComp)):
+        for gen in src.generators:
+            gf = items_flag(gen.target, gen.iter)
+            gnames = {gf} if gf else set()
+            for cond in gen.ifs:
+                for e, p in facts(cond, True):
+                    if truthy(e, p, gnames):
+                        evidence = f"pre-filtered by `{short(cond, 40)}` in `{short(src, 50)}`"
+                    elif mentions_flag(e, gnames):
+                        mentioned = True
+    elif evidence is None and isinstance(src, ast.Call) and dotted(src.func) in ("filter", "sorted", "list", "tuple") and src is not lp.iter:
+        mentioned = True  # some other pre-processing of the name list: not modelled
+    if evidence and not inverted:
+        rep.ok(R5, k, m.site(rs.explicit_store), evidence)
+    elif inverted:
+        rep.violation(R5, k, m.site(rs.explicit_store), f"`{short(rs.explicit_store, 50)}` is only reached when `{inverted}` holds, i.e. for names that are NOT explicit: '(name)=' targets are never found and heading-title names become '#'-targets")
+    elif mentioned:
+        rep.error(R5, f"the test on the nametypes flag that guards `{short(rs.explicit_store, 40)}` is not understood")
     else:
-        guards = cfg.guards(cfg.stmt_of(rs.explicit_store))
-        if any(p and isinstance(e, ast.Name) and e.id == flag for e, p in guards):
-            rep.ok(R5, k, m.site(rs.explicit_store), f"guarded by `{flag}`")
-        elif any(_mentions_name(e, flag) for e, p in guards):
-            rep.error(R5, f"the test on `{flag}` guarding `{short(rs.explicit_store, 40)}` is not understood")
-        else:
-            rep.violation(R5, k, m.site(rs.explicit_store), f"`{short(rs.explicit_store, 50)}` is not guarded by `{flag}`: implicit heading-title names become '#'-targets, so a link whose target does not exist (e.g. `<#my title>`) resolves silently and explicit targets lose their priority")
+        rep.violation(
+            R5,
+            k,
+            m.site(rs.explicit_store),
+            f"`{short(rs.explicit_store, 50)}` in `{short(lp, 50)}` is reached for every name in document.nametypes, whatever its explicit flag: implicit heading-title names "
+            "become '#'-targets and are searched before the slugs, so `#getting-started` hits the heading titled 'getting-started' instead of the one whose slug it is, "
+            "and a link whose target does not exist (`<#my title>`) resolves silently",
+        )
     # writers
     seen = set()
     for f, call, arg in _name_writers(corpus):
@@ -1303,7 +1508,301 @@ def r5_explicit_only(corpus: Corpus, rep: Report, tier: str):
     rep.expect_min(R5, 5, "reader filter + three explicit writers + the heading writer")
 
 
-RULES = [r1_dispatch, r2_attribute_agreement, r3_loop_paths, r4_key_normalisation, r5_explicit_only]
+# ---------------------------------------------------------------------------
+# R6 title of an explicit target: the reader's extraction cases cover the heading nodes MyST itself creates
+
+
+def _node_classes(f: FunctionInfo, e: ast.AST) -> set[str] | None:
+    """{'rubric', 'title'} from ``nodes.rubric | nodes.title`` / a tuple / a single class expression."""
+    if isinstance(e, ast.BinOp) and isinstance(e.op, ast.BitOr):
+        a, b = _node_classes(f, e.left), _node_classes(f, e.right)
+        return None if a is None or b is None else a | b
+    if isinstance(e, (ast.Tuple, ast.List)):
+        out: set[str] = set()
+        for x in e.elts:
+            c = _node_classes(f, x)
+            if c is None:
+                return None
+            out |= c
+        return out
+    d = f.module.resolve(dotted(e) or "")
+    if d.startswith("docutils.nodes."):
+        return {d.rsplit(".", 1)[1]}
+    return None
+
+
+def _class_facts(f: FunctionInfo, guards, var: str) -> tuple[set[str] | None, bool]:
+    """(classes that ``var`` is known to be an instance of / have as tagname at this point or None if unconstrained,
+    whether some test on ``var`` was not understood)."""
+    classes: set[str] | None = None
+    odd = False
+    for e, p in guards:
+        if not _mentions_name(e, var):
+            continue
+        got = None
+        if isinstance(e, ast.Call) and dotted(e.func) == "isinstance" and len(e.args) == 2 and isinstance(e.args[0], ast.Name) and e.args[0].id == var:
+            got = _node_classes(f, e.args[1]) if p else set()
+            if got is None:
+                odd = True
+                continue
+            if not p:
+                continue  # a negative class fact does not select a case
+        elif isinstance(e, ast.Compare) and len(e.ops) == 1 and isinstance(e.left, ast.Attribute) and e.left.attr == "tagname" and isinstance(e.left.value, ast.Name) and e.left.value.id == var:
+            c = e.comparators[0]
+            if isinstance(e.ops[0], ast.Eq) and isinstance(c, ast.Constant) and isinstance(c.value, str):
+                if not p:
+                    continue
+                got = {c.value}
+            elif isinstance(e.ops[0], ast.In) and isinstance(c, (ast.Tuple, ast.List, ast.Set)) and all(isinstance(x, ast.Constant) for x in c.elts):
+                if not p:
+                    continue
+                got = {x.value for x in c.elts}
+            elif isinstance(e.ops[0], (ast.NotEq, ast.NotIn)) and p:
+                continue
+            elif isinstance(e.ops[0], (ast.NotEq,)) and not p and isinstance(c, ast.Constant):
+                got = {c.value}
+            else:
+                odd = True
+                continue
+        else:
+            # other facts about the node (children present, attribute present, startswith ...) do not select a class
+            continue
+        classes = got if classes is None else (classes & got)
+    return classes, odd
+
+
+def _title_cases(f: FunctionInfo, node_vars: set[str], region: list[ast.AST]) -> tuple[list[tuple[str, set[str] | None, ast.AST]], list[str]]:
+    """[(relation 'self'|'child', classes or None = any, site)] for every ``*astext(X)`` in ``region``; problems."""
+    cfg = get_cfg(f)
+    cases: list[tuple[str, set[str] | None, ast.AST]] = []
+    problems: list[str] = []
+    for n in region:
+        if not (isinstance(n, ast.Call) and (dotted(n.func) or "").endswith("astext")):
+            continue
+        x = n.args[0] if n.args else (n.func.value if isinstance(n.func, ast.Attribute) else None)
+        if not isinstance(x, ast.Name):
+            problems.append(f"`{short(n, 40)}`: subject is not a local name")
+            continue
+        guards = cfg.guards(cfg.stmt_of(n))
+        if x.id in node_vars:
+            rel = "self"
+        else:
+            its = [st for _, _, st in _bindings(f, x.id) if isinstance(st, (ast.For, ast.comprehension))]
+            src = its[0].iter if len(its) == 1 and len(_bindings(f, x.id)) == 1 else None
+            if isinstance(src, ast.Attribute) and src.attr == "children":
+                src = src.value
+            if isinstance(src, ast.Name) and src.id in node_vars:
+                rel = "child"
+            else:
+                problems.append(f"`{short(n, 40)}`: `{x.id}` is neither the target node nor one of its children")
+                continue
+        classes, odd = _class_facts(f, guards, x.id)
+        if odd:
+            problems.append(f"`{short(n, 40)}`: a class test on `{x.id}` was not understood")
+            continue
+        cases.append((rel, classes, n))
+    return cases, problems
+
+
+@rule("C09.R6")
+def r6_title_extraction(corpus: Corpus, rep: Report, tier: str):
+    R6 = "C09.R6"
+    rep.rule(R6, "for every heading node MyST creates (section with a title child; rubric that is its own title) the resolver's title extraction has a case on the right subject (the node itself / its child)")
+    rs = _resolver(corpus)
+    fi, m = rs.fi, rs.m
+    base = corpus.mod(BASE)
+    # writer side: generate_heading_target(token, level, node, title_node) call sites
+    ght = base.func("DocutilsRenderer.generate_heading_target")
+    if len(ght.params) < 5:
+        raise Unsupported(f"{ght.qualname}{tuple(ght.params)}: expected (self, token, level, node, title_node)")
+    pn, pt = ght.params[3], ght.params[4]
+    obligations: list[tuple[str, str, str, str]] = []  # (relation, title class, node class, site)
+    for f in base.functions.values():
+        if f.is_lambda:
+            continue
+        for c in f.local_nodes():
+            if isinstance(c, ast.Call) and _self_call(c) == "generate_heading_target":
+                a_node = c.args[2] if len(c.args) > 2 else kwarg(c, pn)
+                a_title = c.args[3] if len(c.args) > 3 else kwarg(c, pt)
+                if not (isinstance(a_node, ast.Name) and isinstance(a_title, ast.Name)):
+                    raise Unsupported(f"{f.module.site(c)}: generate_heading_target arguments are not locals")
+
+                def ctor_cls(name: str) -> str:
+                    b = [v for v, i, st in _bindings(f, name) if i is None and isinstance(v, ast.Call)]
+                    ds = {f.module.resolve(dotted(v.func) or "") for v in b}
+                    if len(ds) != 1 or not next(iter(ds)).startswith("docutils.nodes."):
+                        raise Unsupported(f"{f.module.site(c)}: class of `{name}` not recognised")
+                    return next(iter(ds)).rsplit(".", 1)[1]
+
+                if a_node.id == a_title.id:
+                    obligations.append(("self", ctor_cls(a_node.id), ctor_cls(a_node.id), f.module.site(c)))
+                else:
+                    attached = any(
+                        (isinstance(x, ast.Call) and isinstance(x.func, ast.Attribute) and x.func.attr in ("append", "insert") and isinstance(x.func.value, ast.Name) and x.func.value.id == a_node.id and any(isinstance(y, ast.Name) and y.id == a_title.id for y in x.args))
+                        or (isinstance(x, ast.AugAssign) and isinstance(x.target, ast.Name) and x.target.id == a_node.id and isinstance(x.value, ast.Name) and x.value.id == a_title.id)
+                        for x in f.local_nodes()
+                    )
+                    if not attached:
+                        raise Unsupported(f"{f.module.site(c)}: `{a_title.id}` is not visibly a child of `{a_node.id}`")
+                    obligations.append(("child", ctor_cls(a_title.id), ctor_cls(a_node.id), f.module.site(c)))
+    if len(obligations) < 2:
+        raise AnchorMissing(f"expected the section and the rubric call of generate_heading_target, found {len(obligations)}")
+    # reader side
+    node_vars = {
+        t.id
+        for n in walk_local(rs.explicit_loop)
+        if isinstance(n, ast.Assign) and any(isinstance(c, ast.Attribute) and c.attr == "ids" for c in ast.walk(n.value))
+        for t in n.targets
+        if isinstance(t, ast.Name)
+    }
+    if not node_vars:
+        raise Unsupported("the target node (document.ids[...]) is not bound to a local in the registry loop")
+    region = list(walk_local(rs.explicit_loop))
+    cases, problems = _title_cases(fi, node_vars, region)
+    # one level of helper: title = self._title_of(node) / _title_of(node)
+    title_elt = rs.explicit_store.value.elts[_registry_writer_positions(corpus, rs)["explicit"]["title"]]
+    for e in _closure(fi, title_elt):
+        if isinstance(e, ast.Call) and not (dotted(e.func) or "").endswith("astext") and any(isinstance(a, ast.Name) and a.id in node_vars for a in e.args):
+            h = None
+            if _self_call(e) and fi.cls is not None:
+                h = corpus.lookup_method(fi.cls, _self_call(e))
+                shift = 0 if (h is not None and "staticmethod" in h.decorators()) else 1
+            elif isinstance(e.func, ast.Name):
+                h, shift = m.functions.get(e.func.id) or corpus.find_function(m.resolve(e.func.id)), 0
+            if h is None:
+                problems.append(f"`{short(e, 40)}` computes the title in a function that cannot be followed")
+                continue
+            idx = [i for i, a in enumerate(e.args) if isinstance(a, ast.Name) and a.id in node_vars][0]
+            hv = {h.params[idx + shift]} | {t.id for n in h.local_nodes() if isinstance(n, ast.Assign) and isinstance(n.value, ast.Subscript) and isinstance(n.value.value, ast.Name) and n.value.value.id == h.params[idx + shift] for t in n.targets if isinstance(t, ast.Name)}
+            c2, p2 = _title_cases(h, hv, list(h.local_nodes()))
+            cases += c2
+            problems += p2
+            rep.saw_function(h.fq)
+    if not cases and not problems:
+        raise Unsupported("no title extraction (`clean_astext(...)`) found in the registry loop")
+    for rel, tcls, ncls, wsite in obligations:
+        what = "the node itself" if rel == "self" else f"a nodes.{tcls} child"
+        k = f"{fi.fq}|title of a nodes.{ncls} target is taken from {what}"
+        hit = [c for c in cases if c[0] == rel and (c[1] is None or tcls in c[1])]
+        if hit:
+            rep.ok("C09.R6", k, m.site(hit[0][2]), f"writer: {wsite}; reader case `{short(hit[0][2], 40)}`")
+            continue
+        if problems:
+            rep.error("C09.R6", f"title extraction not understood: {problems[0]}")
+            continue
+        wrong = [c for c in cases if c[0] != rel and (c[1] is not None and tcls in c[1])]
+        extra = f"; nodes.{tcls} is only looked for among the {'children of the node' if rel == 'self' else 'node classes themselves'} (`{short(wrong[0][2], 40)}`), which never matches" if wrong else ""
+        rep.violation(
+            "C09.R6",
+            k,
+            m.site(rs.explicit_store),
+            f"render_heading ({wsite}) registers a nodes.{ncls} whose title is {what}, but the resolver has no case that reads the title from {what} for that class{extra}: "
+            f"an empty link to an explicit target on such a heading shows '#name' instead of the heading text",
+        )
+    rep.expect_min("C09.R6", 2, "section/title and rubric obligations")
+
+
+# ---------------------------------------------------------------------------
+# R7 slug registry keys are unique: the key was tested absent after its last change
+
+
+@rule("C09.R7")
+def r7_slug_key_fresh(corpus: Corpus, rep: Report, tier: str):
+    R7 = "C09.R7"
+    rep.rule(R7, "a heading is stored in the slug registry under a key that was tested absent from the registry after its last modification (no heading overwrites another heading's anchor)")
+    base = corpus.mod(BASE)
+    export = None
+    for f in base.functions.values():
+        if f.is_lambda:
+            continue
+        for n in f.local_nodes():
+            if isinstance(n, ast.Assign) and any(isinstance(t, ast.Attribute) and t.attr == "myst_slugs" for t in n.targets) and isinstance(n.value, ast.Attribute):
+                export = n.value.attr
+    if export is None:
+        raise AnchorMissing("no `document.myst_slugs = self.<attr>` export in mdit_to_docutils.base")
+    stores = []
+    for f in base.functions.values():
+        if f.is_lambda:
+            continue
+        for n in f.local_nodes():
+            if isinstance(n, ast.Assign) and isinstance(n.targets[0], ast.Subscript) and isinstance(n.targets[0].value, ast.Attribute) and n.targets[0].value.attr == export:
+                stores.append((f, n))
+    if not stores:
+        raise AnchorMissing(f"no store into self.{export}")
+
+    def fresh_edge(n, x: str, is_reg) -> bool:
+        if isinstance(n, tuple) and n[0] == "F" and isinstance(n[1], ast.For) and isinstance(n[1].iter, ast.Call) and n[1]._mod.resolve(dotted(n[1].iter.func) or "") == "itertools.count":
+            return True  # `for i in itertools.count()` is never exhausted: the edge is infeasible, so it blocks the path
+        if not (isinstance(n, tuple) and n[0] in ("T", "F") and isinstance(n[1], (ast.If, ast.While))):
+            return False
+        for e, p in facts(n[1].test, n[0] == "T"):
+            if isinstance(e, ast.Compare) and len(e.ops) == 1 and isinstance(e.left, ast.Name) and e.left.id == x and is_reg(e.comparators[0]):
+                if (isinstance(e.ops[0], ast.In) and not p) or (isinstance(e.ops[0], ast.NotIn) and p):
+                    return True
+        return False
+
+    for f, st in stores:
+        rep.saw_function(f.fq)
+        key = st.targets[0].slice
+        site = f.module.site(st)
+        k = f"{f.fq}|key of `{short(st.targets[0], 40)}` is absent from the registry"
+        if not isinstance(key, ast.Name):
+            raise Unsupported(f"{site}: registry key `{short(key, 30)}` is not a local")
+        cfg = get_cfg(f)
+        is_self_reg = lambda e: isinstance(e, ast.Attribute) and e.attr == export  # noqa: E731
+        # (a) tested at the store itself
+        defs = [s for _, _, s in _bindings(f, key.id)]
+        if defs and all(not cfg.paths_avoiding(cfg.stmt_of(d), cfg.stmt_of(st), lambda n: fresh_edge(n, key.id, is_self_reg)) for d in defs):
+            rep.ok(R7, k, site, "tested absent in the writer")
+            continue
+        # (b) computed by a function that receives the registry
+        calls = [v for v, i, _ in _bindings(f, key.id) if i is None and isinstance(v, ast.Call)]
+        if len(calls) != 1 or len(defs) != 1:
+            raise Unsupported(f"{site}: origin of the key `{key.id}` not understood")
+        call = calls[0]
+        g = base.functions.get(dotted(call.func) or "") or corpus.find_function(f.module.resolve(dotted(call.func) or ""))
+        if g is None or g.is_lambda:
+            raise Unsupported(f"{site}: `{short(call, 40)}` cannot be followed")
+        idx = [i for i, a in enumerate(call.args) if is_self_reg(a)]
+        kw = [kk.arg for kk in call.keywords if is_self_reg(kk.value)]
+        rep.saw_function(g.fq)
+        if not idx and not kw:
+            rep.violation(R7, k, site, f"`{short(call, 50)}` computes the key without seeing the registry self.{export}: two headings with the same text get the same key and the later one overwrites the earlier one's anchor")
+            continue
+        sp = kw[0] if kw else g.params[idx[0]]
+        gcfg = get_cfg(g)
+        is_param_reg = lambda e: isinstance(e, ast.Name) and e.id == sp  # noqa: E731
+        uses = [n for n in g.local_nodes() if isinstance(n, ast.Name) and n.id == sp and isinstance(n.ctx, ast.Load)]
+        rets = [r for r in g.local_nodes() if isinstance(r, ast.Return)]
+        if not rets or any(not isinstance(r.value, ast.Name) for r in rets):
+            raise Unsupported(f"{g.qualname}: a return value is not a local name")
+        if not uses:
+            rep.violation(R7, f"{g.fq}|result is tested against the registry", g.site(), f"{g.qualname} never reads its registry parameter `{sp}`: duplicate headings get the same anchor and overwrite each other in document.myst_slugs")
+            continue
+        tests = [n for n in g.local_nodes() if isinstance(n, ast.Compare) and len(n.ops) == 1 and isinstance(n.ops[0], (ast.In, ast.NotIn)) and is_param_reg(n.comparators[0])]
+        if not tests:
+            raise Unsupported(f"{g.qualname}: no `candidate in {sp}` test on the returned name (uniqueness established in an unknown idiom)")
+        for r in rets:
+            x = r.value.id
+            kk = f"{g.fq}|returned `{x}` was tested absent from `{sp}` after its last assignment"
+            gdefs = [s for _, _, s in _bindings(g, x)]
+            starts = [gcfg.stmt_of(d) for d in gdefs] + (["ENTRY"] if x in g.params else [])
+            stale = [d for d in starts if gcfg.paths_avoiding(d, r, lambda n: fresh_edge(n, x, is_param_reg))]
+            if not stale:
+                rep.ok(R7, kk, g.module.site(r), f"{len(starts)} definition(s), each followed by `{x} in {sp}` == False before the return")
+            else:
+                d = stale[0]
+                rep.violation(
+                    R7,
+                    kk,
+                    g.module.site(d) if isinstance(d, ast.AST) else g.site(),
+                    f"`{short(d, 50) if isinstance(d, ast.AST) else 'the parameter'}` reaches `{short(r, 30)}` on a path that does not re-test `{x} in {sp}`: the returned anchor can already be taken "
+                    f"(e.g. three headings 'Alpha', or 'Beta-1' followed by two 'Beta'), the later heading overwrites the earlier one in document.myst_slugs and `[](#slug-1)` links point at a different heading",
+                )
+    rep.expect_min(R7, 1, "the slug registry writer")
+
+
+RULES = [r1_dispatch, r2_attribute_agreement, r3_loop_paths, r4_key_normalisation, r5_explicit_only, r6_title_extraction, r7_slug_key_fresh]
 
 
 # ---------------------------------------------------------------------------
@@ -1477,4 +1976,49 @@ def mutants(corpus: Corpus):
         c = find_node(g, lambda n: isinstance(n, ast.Call) and isinstance(n.func, ast.Attribute) and n.func.attr == old)
         if c is not None:
             add(mid, R5, base, splice(base.src, c.func, _seg(base, c.func).replace(old, new)), q.split(".")[1])
+    # ---- R1: the 'external' class pre-emption must be a word membership test ---------------------
+    ext = find_node(rl, lambda n: isinstance(n, ast.Compare) and isinstance(n.left, ast.Constant) and n.left.value == "external" and isinstance(n.ops[0], ast.In))
+    if ext is not None:
+        cont = ext.comparators[0]
+        if isinstance(cont, ast.Call) and isinstance(cont.func, ast.Attribute) and cont.func.attr == "split":
+            add("c09-external-class-substring", R1, base, splice(base.src, cont, _seg(base, cont.func.value)), "substring test")
+        add("c09-external-class-substring-get", R1, base, splice(base.src, cont, 'str(token.attrs.get("class", ""))'), "substring test")
+        add("c09-external-class-find", R1, base, splice(base.src, ext, 'str(token.attrs["class"]).find("external") >= 0'), "can reach")
+    else:
+        out.append(("c09-external-class-substring", "no `'external' in ...` test in render_link"))
+    # ---- R5: explicit flag ignored (loop over the names only) -------------------------------------
+    lp = rs.explicit_loop
+    if isinstance(lp.target, ast.Tuple) and len(lp.target.elts) == 2 and isinstance(lp.iter, ast.Call) and flt is not None:
+        new_src = splice(tr.src, flt, "pass")
+        new_src = splice(new_src, lp.iter, _seg(tr, lp.iter.func.value))  # same line, later column first
+        new_src = splice(new_src, lp.target, _seg(tr, lp.target.elts[0]))
+        add("c09-explicit-flag-not-read", R5, tr, new_src, "flagged explicit")
+        add("c09-explicit-flag-inverted", R5, tr, splice(tr.src, flt.test, lp.target.elts[1].id), "flagged explicit")
+    # ---- R6: title extraction on the wrong subject --------------------------------------------------
+    self_if = find_node(f, lambda n: isinstance(n, ast.If) and isinstance(n.test, ast.Compare) and isinstance(n.test.left, ast.Attribute) and n.test.left.attr == "tagname" and isinstance(n.test.comparators[0], ast.Constant) and n.test.comparators[0].value == "rubric")
+    child_isinst = find_node(
+        f,
+        lambda n: isinstance(n, ast.Call) and dotted(n.func) == "isinstance" and len(n.args) == 2 and isinstance(n.args[0], ast.Name) and "title" in (_node_classes(f, n.args[1]) or set())
+        and any(isinstance(st, ast.For) for _, _, st in _bindings(f, n.args[0].id)),
+    )
+    if self_if is not None and child_isinst is not None and self_if.end_lineno < child_isinst.lineno:
+        folded = splice(tr.src, child_isinst.args[1], _seg(tr, child_isinst.args[1]) + " | nodes.rubric")
+        folded = splice(folded, self_if, "pass")
+        add("c09-rubric-case-folded-into-children", "C09.R6", tr, folded, "nodes.rubric")
+        add("c09-rubric-tagname-wrong", "C09.R6", tr, splice(tr.src, self_if.test.comparators[0], '"title"'), "nodes.rubric")
+        add("c09-section-title-case-dropped", "C09.R6", tr, splice(tr.src, child_isinst.args[1], "nodes.caption"), "nodes.section")
+    else:
+        out.append(("c09-rubric-case-folded-into-children", "rubric self-case / child isinstance not found in this shape"))
+    # ---- R7: uniqueness not re-established after the candidate changed --------------------------------
+    cus = base.func("compute_unique_slug")
+    wl = find_node(cus, lambda n: isinstance(n, ast.While) and isinstance(n.test, ast.Compare) and isinstance(n.test.ops[0], ast.In))
+    ret = find_node(cus, lambda n: isinstance(n, ast.Return) and isinstance(n.value, ast.Name))
+    if wl is not None and ret is not None:
+        seg = _seg(base, wl)
+        add("c09-uniquifier-if-instead-of-while", "C09.R7", base, splice(base.src, wl, "if" + seg[len("while"):]), "compute_unique_slug")
+        add("c09-uniquifier-bounded-retries", "C09.R7", base, splice(base.src, wl.test, _seg(base, wl.test) + " and i < 10"), "compute_unique_slug")
+        x = ret.value.id
+        add("c09-slug-truncated-after-uniquifier", "C09.R7", base, splice(base.src, ret, f"{x} = {x}[:64]\n" + _indent(base, ret) + _seg(base, ret)), "compute_unique_slug")
+    else:
+        out.append(("c09-uniquifier-if-instead-of-while", "no `while cand in slugs` loop in compute_unique_slug"))
     return out
